@@ -22,6 +22,16 @@ func vOfLeaf[T any](name string, inferable bool, mk func() ColumnOf[T], gen func
 		row:  func(c Column, i int) T { return c.(ColumnOf[T]).Row(i) },
 		eq:   eq,
 		auto: auto,
+		emit: func(v T) {
+			switch x := any(v).(type) {
+			case bool:
+				verifEmitBool("row", x)
+			case uuid.UUID:
+				verifEmitBytes("row", x[:])
+			default:
+				verifFail("no-emitter-for-type")
+			}
+		},
 	})
 }
 
